@@ -47,7 +47,11 @@ def wire_str(p):
     for n, v in p["options"]:
         if n == W.OBSERVE:
             obs = int.from_bytes(v, "big")
-    body = int(p["payload"].decode()) if p["payload"] else 0
+    try:
+        body = int(p["payload"].decode()) if p["payload"] else 0
+    except ValueError:              # block-wise scenarios carry real bodies: a stable stand-in number
+        import zlib
+        body = 1000000 + zlib.crc32(p["payload"]) % 1000000
     return f"{p['mtype']}:{p['code']}:{p['mid']}:{_hex(p['token'])}:{_o(obs)}:{body}"
 
 
@@ -57,7 +61,7 @@ def event_token(ev):
         _, t, r, remote, mc, ob, mt, rel, code, obs, body, mr = ev[:12]
         return f"S@{t}:{r}:{remote}:{_b(mc)}:{_b(ob)}:{_o(mt)}:{'-' if rel is None else _b(rel)}:{code}:{_o(0 if ob else obs)}:{body}:0:{mr}"
     if k == "R":
-        _, t, remote, mcl, mt, code, mid, tok, obs, body = ev
+        _, t, remote, mcl, mt, code, mid, tok, obs, body = ev[:10]
         return f"R@{t}:{remote}:{_b(mcl)}:{mt}:{code}:{mid}:{tok}:{_o(obs)}:{body}"
     if k == "P":
         _, t, sv, mt, rel, code, obs, body, nr, mr, il = ev
@@ -146,6 +150,8 @@ class Runner:
             elif do == "piggy":
                 ev = ["R", t, remote, False, "ACK", rule.get("code", 69), p["mid"], tok,
                       rule.get("obs"), rule.get("body", 0)]
+                if rule.get("opts") or rule.get("payload_hex") is not None:
+                    ev += [rule.get("opts") or [], rule.get("payload_hex")]
             elif do == "sep":
                 ev = ["R", t, remote, False, rule.get("ptype", "CON"), rule.get("code", 69),
                       rule["pmid"], tok, rule.get("obs"), rule.get("body", 0)]
@@ -208,6 +214,19 @@ class Runner:
         if body:
             msg.payload = str(body).encode()
         msg.remote = netsim.remote_for(self.net, self.sockaddr(remote))
+        bw = (self.script.get("blockwise") or {}).get(str(r))
+        if bw is not None:
+            # the default API: BlockwiseRequest on top of Request (oracle-only scripts); a body of bw["upload"]
+            # bytes is sent in Block1 pieces, a Block2 answer is fetched piece by piece
+            if bw.get("upload"):
+                msg.payload = bytes((i * 7 + r) % 251 for i in range(bw["upload"]))
+            msg.remote.maximum_block_size_exp = bw.get("szx", 6)
+            req = self.ctx.request(msg)
+            self.requests[r] = req
+            req.response.add_done_callback(lambda f: f.cancelled() or f.exception())
+            req.response.add_done_callback(
+                lambda f, r=r: self.done_calls.__setitem__(r, self.done_calls.get(r, 0) + 1))
+            return
         req = self.ctx.request(msg, handle_blockwise=False)
         self.requests[r] = req
         req.response.add_done_callback(lambda f: f.cancelled() or f.exception())
@@ -259,12 +278,15 @@ class Runner:
             getattr(self, "do_" + sub[0])(sub)
 
     def do_R(self, ev):
-        _, t, remote, mcl, mt, code, mid, tok, obs, body = ev
+        _, t, remote, mcl, mt, code, mid, tok, obs, body = ev[:10]
         opts = []
         if obs is not None:
             opts.append((W.OBSERVE, W.uint_bytes(obs)))
-        data = W.build(mt, code, mid, bytes.fromhex(tok) if tok != "-" else b"", opts,
-                       str(body).encode() if body else b"")
+        if len(ev) > 10 and ev[10]:
+            opts += [(n, bytes.fromhex(v)) for n, v in ev[10]]       # oracle-only scripts (block options ...)
+        payload = bytes.fromhex(ev[11]) if len(ev) > 11 and ev[11] is not None else \
+            (str(body).encode() if body else b"")
+        data = W.build(mt, code, mid, bytes.fromhex(tok) if tok != "-" else b"", opts, payload)
         local = netsim.LOCAL_UNICAST
         if mcl == "v4":
             local = netsim.LOCAL_MULTICAST_V4
